@@ -59,6 +59,8 @@ def signature(mm):
         cls = ":len=%s" % ("0" if n == 0 else "1" if n == 1 else "2..8" if n <= 8 else ">8")
     elif "tv" in arg:
         cls = ":tv=%s" % arg["tv"]
+    elif "act" in arg:
+        cls = ":act=%s%s" % (arg["act"], ",zero-id" if not any(arg.get("id") or []) else "")
     return "%s:%s%s" % (a, key, cls)
 
 
@@ -173,6 +175,33 @@ def gen_ctx_histories(ck, n, steps):
     return behs
 
 
+def gen_stream_histories(ck, n, steps):
+    rng = ck.rng
+    behs = []
+    for _ in range(n):
+        mx = rng.choice([1, 2, 3, 4, 5, 8])
+        beh = [{"a": "init", "arg": {"mode": "stream", "max": mx}}]
+        for _ in range(steps):
+            op = rng.choice(["srequest", "srequest", "srequest", "slate", "sanswer"])
+            if op == "srequest":
+                if rng.random() < 0.15:
+                    idb = [0] * mx
+                else:
+                    idb = [rng.randrange(128)] + [rng.randrange(256) for _ in range(mx - 1)]
+                pay = [rng.randrange(256) for _ in range(rng.choice([0, 1, 3, 8, 30]))]
+                data = [rng.randrange(256) for _ in range(rng.choice([1, 1, 2, 3, 9, 40]))]
+                beh.append({"a": "srequest", "arg": {"id": idb, "payload": pay, "act": rng.choice(["none", "reply", "reply2"]),
+                                                    "data": data, "hret": rng.choice([0, 0, 1, 4, -1, -3, -128])}})
+            elif op == "slate":
+                beh.append({"a": "slate", "arg": {"data": [rng.randrange(256) for _ in range(rng.choice([1, 2, 5]))]}})
+            else:
+                idb = [128 + rng.randrange(128)] + [rng.randrange(256) for _ in range(mx - 1)]
+                pay = [rng.randrange(256) for _ in range(rng.choice([0, 2, 6]))]
+                beh.append({"a": "sanswer", "arg": {"id": idb, "payload": pay}})
+        behs.append(beh)
+    return behs
+
+
 def drop_skipped(events):
     """Calls the driver did not make (handle slot not in the needed state, context already released)."""
     return [e for e in events if (e.get("obs") or {}).get("ret") != "skipped"]
@@ -213,6 +242,7 @@ def run(tier):
     cfg = CFG[tier]
     ck = vlib.Check(PID, tier)
     exe = vlib.build_driver("reply", ["reply.c"])
+    exs = vlib.build_driver("reply_stream", ["reply_stream.c"], libs=("mptio", "mptcore"))
 
     cpu_mark(ck, "build")
     # 1. model: tiers agree (id codec), the reply protocol satisfies the statement on the ghost
@@ -227,9 +257,21 @@ def run(tier):
     behs = vlib.parse_behaviours(gen.out)
     cpu_mark(ck, "behaviour_export")
     # the reply-context behaviours first: a broken id codec must not hide them
+    sbehs = [b for b in behs if b[0]["arg"]["mode"] == "stream"]
+    behs = [b for b in behs if b[0]["arg"]["mode"] != "stream"]
     behs.sort(key=lambda b: 0 if b[0]["arg"]["mode"] == "ctx" else 1)
     recs, done = run_chunks(exe, behs)
     mms = vlib.compare(behs[:done], recs, match)
+    srecs, sdone = run_chunks(exs, sbehs)
+    smms = vlib.compare(sbehs[:sdone], srecs, match)
+    per_s = {}
+    for mm in smms:
+        sig = "stream:" + signature(mm)
+        per_s[sig] = per_s.get(sig, 0) + 1
+        if per_s[sig] <= 2:
+            ck.violation(sig, {"binding": "A(replay stream)", "behaviour": sbehs[mm["b"]], "step": mm["i"],
+                               "why": mm["why"], "record": mm["rec"], "stream": True})
+    sby = vlib.group_records(srecs)
     per_sig = {}
     for mm in mms:
         sig = signature(mm)
@@ -238,6 +280,7 @@ def run(tier):
             continue
         ck.violation(sig, {"binding": "A(replay)", "behaviour": behs[mm["b"]], "step": mm["i"],
                            "why": mm["why"], "record": mm["rec"]})
+    per_sig.update(per_s)
     ck.notes["replay_mismatch_kinds"] = per_sig
     by = vlib.group_records(recs)
     nt = set()
@@ -251,10 +294,13 @@ def run(tier):
                 nt.add(json.dumps((last["a"], last["arg"]), sort_keys=True))
         elif last["a"] == "buf2id" and any(last["arg"]["buf"]):
             nt.add(json.dumps((last["a"], last["arg"]), sort_keys=True))
-    ck.cov["evaluations"] += done
-    ck.notes["replayed_behaviours"] = done
-    ck.notes["behaviours_generated"] = len(behs)
-    ck.notes["replay_mismatches"] = len(mms)
+    for b, beh in enumerate(sbehs[:sdone]):
+        if any((r.get("obs") or {}).get("frames") for r in sby.get(b, [])):
+            nt.add(json.dumps([(s["a"], s.get("arg")) for s in beh], sort_keys=True))
+    ck.cov["evaluations"] += done + sdone
+    ck.notes["replayed_behaviours"] = {"context_and_id": done, "stream": sdone}
+    ck.notes["behaviours_generated"] = len(behs) + len(sbehs)
+    ck.notes["replay_mismatches"] = len(mms) + len(smms)
     if done < len(behs):
         ck.notes["replay_cut_short"] = "more than %d crashes; %d of %d behaviours replayed" % (MAX_FAULTS, done, len(behs))
 
@@ -263,11 +309,22 @@ def run(tier):
     idh = [gen_id_history(ck, cfg["nrand"])]
     recs_i, _ = vlib.run_driver(exe, vlib.to_script(idh), env=ENV)
     ev_i = vlib.merge_trace(idh, recs_i)
-    ok_i, m_i = validate(ck, ev_i, "id", idh)
     hist = gen_ctx_histories(ck, cfg["nhist"], cfg["steps"])
     recs_c, _ = vlib.run_driver(exe, vlib.to_script(hist), env=ENV)
     ev_c = drop_skipped(vlib.merge_trace(hist, recs_c))
-    ok_c, m_c = validate(ck, ev_c, "ctx", hist)
+    shist = gen_stream_histories(ck, max(cfg["nhist"] // 2, 10), max(cfg["steps"] // 2, 20))
+    recs_s, _ = vlib.run_driver(exs, vlib.to_script(shist), env=ENV)
+    ev_s = drop_skipped(vlib.merge_trace(shist, recs_s))
+    for e in ev_c:
+        e["b"] += 1
+    for e in ev_s:
+        e["b"] += 1 + len(hist)
+    allh = idh + hist + shist
+    ok_all, m_all = validate(ck, ev_i + ev_c + ev_s, "all", allh)
+    ok_i = ok_c = ok_s = ok_all
+    m_i = min(m_all, len(ev_i))
+    m_c = min(max(m_all - len(ev_i), 0), len(ev_c))
+    m_s = max(m_all - len(ev_i) - len(ev_c), 0)
     cpu_mark(ck, "trace_validation")
     by2 = vlib.group_records(recs_c)
     ntb = 0
@@ -278,10 +335,10 @@ def run(tier):
     for e in ev_i:
         if e["a"] in ("id2buf", "roundtrip") and e["arg"]["w"] > 0 and any(e["arg"]["id"]):
             nt.add(json.dumps((e["a"], e["arg"]), sort_keys=True))
-    ck.cov["traces_validated_against_impl"] = (len(hist) if ok_c else 0) + (1 if ok_i else 0)
-    ck.cov["evaluations"] += len(hist) + len(ev_i) - 1
-    ck.notes["trace_events"] = {"id": len(ev_i), "ctx": len(ev_c)}
-    ck.notes["trace_events_matched"] = {"id": m_i, "ctx": m_c}
+    ck.cov["traces_validated_against_impl"] = (len(hist) + len(shist) + 1) if ok_all else 0
+    ck.cov["evaluations"] += len(hist) + len(shist) + len(ev_i) - 1
+    ck.notes["trace_events"] = {"id": len(ev_i), "ctx": len(ev_c), "stream": len(ev_s)}
+    ck.notes["trace_events_matched"] = {"id": m_i, "ctx": m_c, "stream": m_s}
     ck.notes["ctx_histories_nontrivial"] = ntb
     ck.notes["ctx_calls_skipped_by_driver"] = sum(1 for r in recs_c if (r.get("obs") or {}).get("ret") == "skipped")
     ck.cov["distinct_nontrivial"] = len(nt)
@@ -313,7 +370,10 @@ def replay(path):
     if not beh:
         print(json.dumps(det, indent=1)[:4000])
         return 2
-    exe = vlib.build_driver("reply", ["reply.c"])
+    if beh[0]["arg"].get("mode") == "stream":
+        exe = vlib.build_driver("reply_stream", ["reply_stream.c"], libs=("mptio", "mptcore"))
+    else:
+        exe = vlib.build_driver("reply", ["reply.c"])
     recs, err = vlib.run_driver(exe, vlib.to_script([beh]))
     if all("exp" in s for s in beh):
         mms = vlib.compare([beh], recs, match)
